@@ -43,6 +43,7 @@ CLAUSES = {
     "set_signed_cookie / clear_cookie": "tie: both delegate to set_cookie; the harness feeds the model the signed value / expiry they computed",
 }
 PARALLEL = True
+CASE_TIMEOUT = 90
 
 COOKIE_FIELDS_STR = [f for f in c07.FIELDS_STR if f.split(".")[0] in ("cookie", "clear", "signed")] + \
     ["cookie.kw.SameSite", "cookie.kw.MaxAge", "clear.kw.Domain"]
@@ -128,6 +129,7 @@ def _rcookie(rng, names):
 
 
 def gen_cases(rng, tier):
+    c07.warm()
     if tier in ("quick", "thorough"):
         yield from enum_cases()
     n = {"quick": 4000, "thorough": 80000, "search": 5000}[tier]
